@@ -435,10 +435,21 @@ class C13(PokerProp):
             for k in range(case["again"]):
                 rec2, g2 = poker.run_ops({**case, "ops": [o for o in case["ops"] if not o.get("probe")]}, shared_from=cur)
                 sig = lambda st: [st["r"]] + ([st["s"]["board"], st["s"]["deck"], st["s"]["stacks"], st["s"]["pay"]] if "s" in st else [])
+
+                def same(a, b):     # payouts are floats: equal up to rounding (the order of summation may differ)
+                    if len(a) != len(b) or a[:4] != b[:4]:
+                        return False
+                    if len(a) == 5:
+                        x, y = a[4], b[4]
+                        if (x is None) != (y is None):
+                            return False
+                        if x is not None and not (len(x) == len(y) and all(core.close(u, v) for u, v in zip(x, y))):
+                            return False
+                    return True
                 first = [sig(st) for o, st in zip(case["ops"], rec["steps"]) if not o.get("probe")]
                 again = [sig(st) for st in rec2["steps"]]
-                if first != again or ("err" in rec2.get("ctor", {})):
-                    bad = next((i for i, (a, b) in enumerate(zip(first, again)) if a != b), min(len(first), len(again)))
+                if len(first) != len(again) or not all(same(a, b) for a, b in zip(first, again)) or ("err" in rec2.get("ctor", {})):
+                    bad = next((i for i, (a, b) in enumerate(zip(first, again)) if not same(a, b)), min(len(first), len(again)))
                     rec["again_diff"] = (f"game {k + 2} built from the same deck and hands objects: step {bad} gave "
                                          f"{str(again[bad])[:200] if bad < len(again) else 'missing'} ({rec2['steps'][bad].get('e', '') if bad < len(again) else rec2.get('ctor')}), "
                                          f"the first time {str(first[bad])[:200] if bad < len(first) else 'missing'}")
